@@ -20,8 +20,10 @@ Zero == RatV(0, 1)
 One == RatV(1, 1)
 
 \* ---- arithmetic on numbers (NaN propagates; x / 0 and x % 0 are NaN)
-RSub(a, b) == Norm(a.n * b.d - b.n * a.d, a.d * b.d)
-RMul(a, b) == Norm(a.n * b.n, a.d * b.d)
+RSub(a, b) == LET g == Gcd(a.d, b.d) IN Norm(a.n * (b.d \div g) - b.n * (a.d \div g), (a.d \div g) * b.d)
+RMul(a, b) == LET g1 == Gcd(Abs(a.n), b.d) g2 == Gcd(Abs(b.n), a.d)
+                  h1 == IF g1 = 0 THEN 1 ELSE g1  h2 == IF g2 = 0 THEN 1 ELSE g2
+              IN Norm((a.n \div h1) * (b.n \div h2), (a.d \div h2) * (b.d \div h1))
 RDiv(a, b) == IF b.n > 0 THEN Norm(a.n * b.d, a.d * b.n) ELSE Norm(0 - a.n * b.d, a.d * (0 - b.n))
 \* truncation toward zero of a rational
 Trunc(a) == IF a.n >= 0 THEN a.n \div a.d ELSE 0 - ((0 - a.n) \div a.d)
